@@ -123,11 +123,15 @@ class World:
             if op == "set_context":
                 p.set_context(elfi.ComputationContext(batch_size=c["bs"], seed=c["seed"]))
             elif op == "add_batch":
-                p.add_batch({n: enc(n, c["v"], self.bs, self.wide) for n in c["ns"]}, c["i"])
+                batch = {n: enc(n, c["v"], self.bs, self.wide) for n in c["ns"]}
+                if c.get("item"):
+                    p[c["i"]] = batch                    # __setitem__
+                else:
+                    p.add_batch(batch, c["i"])
             elif op == "remove_batch":
                 p.remove_batch(c["i"])
             elif op == "get_batch":
-                b = p.get_batch(c["i"])
+                b = p[c["i"]] if c.get("item") and not c["ns"] else p.get_batch(c["i"], list(c["ns"]) or None)
                 ret = [[n, dec(a, n, self.bs, self.wide)] for n, a in b.items()]
             elif op == "clear":
                 p.clear()
@@ -368,8 +372,8 @@ def rm(h, i):
     return dict(op="remove_batch", h=h, i=i)
 
 
-def get(h, i):
-    return dict(op="get_batch", h=h, i=i)
+def get(h, i, ns=""):
+    return dict(op="get_batch", h=h, i=i, ns=list(ns))
 
 
 def m(op, h):
@@ -395,12 +399,12 @@ def mv(op, d1, d2):
 def pinned():
     """deterministic histories: what a user relies on, and one per finding (reproduced on every run, whatever the seed)"""
     return [
-        S([new(1, "abc"), ctx_(1), add(1, 0, "ab", 1), add(1, 1, "a", 2), get(1, 0), get(1, 1), m("save", 1), m("close", 1), opn(2),
+        S([new(1, "abc"), ctx_(1), add(1, 0, "ab", 1), add(1, 1, "a", 2), get(1, 0), get(1, 1), get(1, 0, "ba"), get(1, 0, "cb"), m("save", 1), m("close", 1), opn(2),
            get(2, 0), get(2, 1), add(2, 1, "ab", 3), add(2, 2, "a", 4), m("close", 2), m("drop", 1), m("drop", 2), opn(1, via="output"),
            get(1, 1), get(1, 2), m("delete", 1), opn(2)],
           pin="straight path: save, close, open gives the same stores / batches / batch_size / seed / name; delete removes the folder"),
         S([new(1, "ab"), ctx_(1), add(1, 0, "ab", 1), m("save", 1), add(1, 1, "ab", 2), add(1, 2, "a", 3), m("flush", 1), m("drop", 1), opn(1),
-           get(1, 1), add(1, 1, "ab", 4), get(1, 1), m("save", 1), m("save", 1), m("close", 1), opn(2), get(2, 1), get(2, 2)],
+           get(1, 1), get(1, 0, "ac"), add(1, 1, "ab", 4), get(1, 1), m("save", 1), m("save", 1), m("close", 1), opn(2), get(2, 1), get(2, 2)],
           pin="an older pickle after more batches were added: open reports the saved count, the later batches stay hidden in the file and "
               "are overwritten in place; saving twice"),
         S([new(1, "ab"), ctx_(1), add(1, 0, "ab", 1), add(1, 1, "ab", 2), m("save", 1), rm(1, 1), m("drop", 1), opn(1), get(1, 1), get(1, 0),
@@ -536,6 +540,7 @@ def random_scenario(rnd, k):
                 i = g["n"] if rnd.random() < 0.7 else rnd.randint(0, max(1, g["n"] + 1))
                 sub = [n for n in nodes if rnd.random() < 0.75] or [nodes[0]]
                 calls.append(add(h, min(i, NHAS), sub, nv()))
+                calls[-1]["item"] = rnd.random() < 0.25
                 g["n"] = max(g["n"], min(i, NHAS) + 1) if i <= g["n"] else g["n"]
             elif op == "remove_batch":
                 i = max(0, g["n"] - 1) if rnd.random() < 0.7 else rnd.randint(0, 2)
@@ -543,7 +548,8 @@ def random_scenario(rnd, k):
                 if i == g["n"] - 1:
                     g["n"] -= 1
             elif op == "get_batch":
-                calls.append(get(h, rnd.randint(0, max(0, g["n"]))))
+                calls.append(get(h, rnd.randint(0, max(0, g["n"])), [n for n in NODESEQ if rnd.random() < 0.5] if rnd.random() < 0.25 else ""))
+                calls[-1]["item"] = rnd.random() < 0.3
             elif op in ("clear", "flush", "save", "close", "delete"):
                 calls.append(m(op, h))
                 if op in ("save", "close") and g["ctx"] and g["name"]:
